@@ -573,7 +573,7 @@ theorem reader_positional_witness :
     have hsort : sortByIndex [⟨0, none, [1, 1, 1, 1], [1, 1, 1, 1]⟩, ⟨1, none, [100, 100, 100, 100], [100, 100, 100, 100]⟩] =
         [⟨0, none, [1, 1, 1, 1], [1, 1, 1, 1]⟩, ⟨1, none, [100, 100, 100, 100], [100, 100, 100, 100]⟩] := by
       unfold sortByIndex
-      apply List.mergeSort_of_sorted
+      apply List.mergeSort_of_pairwise
       simp
     simp only [hmap, hdata]
     simp [build, newAgnostic, hsort, indicesAreRange, h4, hcount]
